@@ -40,6 +40,10 @@ type GenginePool struct {
 	updateLock sync.Mutex
 	clear      bool //whether rules has been cleared ，if true it means there is no rules in gengine
 
+	//guards clear, execModel and rbSlice[i].Kc between the management methods (which also hold updateLock while
+	//they compile) and the executions: executions only take the read lock, so they never wait for a compilation
+	stateLock sync.RWMutex
+
 	rbSlice []*builder.RuleBuilder
 	//total gengine instance number
 	max int64
@@ -157,26 +161,26 @@ func (gp *GenginePool) getGengine() (*gengineWrapper, error) {
 	for {
 		gp.getEngineLock.Lock()
 		//check if there has enough resource in pool
-		numFree := len(gp.freeGengines)
-		if numFree > 0 {
-			gp.runningLock.Lock()
+		gp.runningLock.Lock()
+		if len(gp.freeGengines) > 0 {
 			gw := gp.freeGengines[0]
 			gp.freeGengines = gp.freeGengines[1:]
 			gp.runningLock.Unlock()
 			gp.getEngineLock.Unlock()
 			return gw, nil
 		}
+		gp.runningLock.Unlock()
 
 		//check if there has addition resource
-		numAddition := len(gp.additionGengines)
-		if numAddition > 0 {
-			gp.additionLock.Lock()
+		gp.additionLock.Lock()
+		if len(gp.additionGengines) > 0 {
 			gw := gp.additionGengines[0]
 			gp.additionGengines = gp.additionGengines[1:]
 			gp.additionLock.Unlock()
 			gp.getEngineLock.Unlock()
 			return gw, nil
 		}
+		gp.additionLock.Unlock()
 
 		gp.getEngineLock.Unlock()
 	}
@@ -219,12 +223,14 @@ func (gp *GenginePool) UpdatePooledRules(ruleStr string) error {
 		return errors.New(fmt.Sprintf("if you want to clear all rules, use method \"pool.ClearPoolRules()\""))
 	}
 
+	gp.stateLock.Lock()
 	gp.ruleBuilder = rbi
 	for i := 0; i < int(gp.max); i++ {
 		gp.rbSlice[i].Kc = gp.ruleBuilder.Kc
 	}
 
 	gp.clear = false
+	gp.stateLock.Unlock()
 	return nil
 }
 
@@ -356,6 +362,7 @@ func (gp *GenginePool) UpdatePooledRulesIncremental(ruleStr string) error {
 		return e
 	}
 
+	gp.stateLock.Lock()
 	//update main
 	updateIncremental(kci, gp.ruleBuilder)
 
@@ -365,6 +372,7 @@ func (gp *GenginePool) UpdatePooledRulesIncremental(ruleStr string) error {
 	}
 
 	gp.clear = false
+	gp.stateLock.Unlock()
 	return nil
 }
 
@@ -380,17 +388,22 @@ func (gp *GenginePool) ClearPoolRules() {
 			dataContext.Add(k, v)
 		}
 	}
+	gp.stateLock.Lock()
 	gp.ruleBuilder = builder.NewRuleBuilder(dataContext)
 	gp.clear = true
 	for i := 0; i < int(gp.max); i++ {
 		gp.rbSlice[i].Kc = gp.ruleBuilder.Kc
 	}
+	gp.stateLock.Unlock()
 }
 
 //remove rules
 func (gp *GenginePool) RemoveRules(ruleNames []string) error {
 	gp.updateLock.Lock()
 	defer gp.updateLock.Unlock()
+
+	gp.stateLock.Lock()
+	defer gp.stateLock.Unlock()
 
 	e := gp.ruleBuilder.RemoveRules(ruleNames)
 	if e != nil {
@@ -435,14 +448,25 @@ func (gp *GenginePool) SetExecModel(execModel int) error {
 	if execModel != SortModel && execModel != ConcurrentModel && execModel != MixModel && execModel != InverseMixModel {
 		return errors.New(fmt.Sprintf("exec model must be SORT_MODEL(1) or CONCOURRENT_MODEL(2) or MIX_MODEL(3) or INVERSE_MIX_MODEL(4), now it is %d", execModel))
 	} else {
+		gp.stateLock.Lock()
 		gp.execModel = execModel
+		gp.stateLock.Unlock()
 	}
 	return nil
 }
 
 //get the execute model the user set
 func (gp *GenginePool) GetExecModel() int {
+	gp.stateLock.RLock()
+	defer gp.stateLock.RUnlock()
 	return gp.execModel
+}
+
+//whether the rules have been cleared
+func (gp *GenginePool) isCleared() bool {
+	gp.stateLock.RLock()
+	defer gp.stateLock.RUnlock()
+	return gp.clear
 }
 
 //check the rule whether exist
@@ -513,12 +537,12 @@ func (gp *GenginePool) GetRulesNumber() int {
 	return len(gp.ruleBuilder.Kc.RuleEntities)
 }
 
-// the rule container an execution uses is read once, under the update lock, into a rule builder
+// the rule container an execution uses is read once, under the state lock, into a rule builder
 // private to the request, so that an update landing while the execution runs (between two
 // stages, or triggered by one of its own rules) cannot change the rules it sees
 func (gp *GenginePool) snapshotRuleBuilder(tag int64) *builder.RuleBuilder {
-	gp.updateLock.Lock()
-	defer gp.updateLock.Unlock()
+	gp.stateLock.RLock()
+	defer gp.stateLock.RUnlock()
 	src := gp.rbSlice[tag]
 	return &builder.RuleBuilder{Kc: src.Kc, Dc: src.Dc}
 }
@@ -571,7 +595,7 @@ func (gp *GenginePool) ExecuteRulesWithSpecifiedEM(reqName string, req interface
 
 	returnResultMap := make(map[string]interface{})
 	//rules has bean cleared
-	if gp.clear {
+	if gp.isCleared() {
 		//no data to execute rule
 		return nil, returnResultMap
 	}
@@ -586,26 +610,27 @@ func (gp *GenginePool) ExecuteRulesWithSpecifiedEM(reqName string, req interface
 		gp.putGengineLocked(gw)
 	}()
 
-	if gp.execModel == SortModel { //sort
+	em := gp.GetExecModel()
+	if em == SortModel { //sort
 		// when some rule execute error ,it will continue to execute last
 		e := gw.gengine.Execute(gw.rulebuilder, true)
 		returnResultMap, _ = gw.gengine.GetRulesResultMap()
 		return e, returnResultMap
 	}
 
-	if gp.execModel == ConcurrentModel { //concurrent
+	if em == ConcurrentModel { //concurrent
 		e := gw.gengine.ExecuteConcurrent(gw.rulebuilder)
 		returnResultMap, _ = gw.gengine.GetRulesResultMap()
 		return e, returnResultMap
 	}
 
-	if gp.execModel == MixModel { //mix
+	if em == MixModel { //mix
 		e := gw.gengine.ExecuteMixModel(gw.rulebuilder)
 		returnResultMap, _ = gw.gengine.GetRulesResultMap()
 		return e, returnResultMap
 	}
 
-	if gp.execModel == InverseMixModel { // inverse mix model
+	if em == InverseMixModel { // inverse mix model
 		e := gw.gengine.ExecuteInverseMixModel(gw.rulebuilder)
 		returnResultMap, _ = gw.gengine.GetRulesResultMap()
 		return e, returnResultMap
@@ -624,7 +649,7 @@ func (gp *GenginePool) ExecuteRulesWithMultiInputWithSpecifiedEM(data map[string
 
 	returnResultMap := make(map[string]interface{})
 	//rules has bean cleared
-	if gp.clear {
+	if gp.isCleared() {
 		//no data to execute rule
 		return nil, returnResultMap
 	}
@@ -639,26 +664,27 @@ func (gp *GenginePool) ExecuteRulesWithMultiInputWithSpecifiedEM(data map[string
 		gp.putGengineLocked(gw)
 	}()
 
-	if gp.execModel == SortModel { //sort
+	em := gp.GetExecModel()
+	if em == SortModel { //sort
 		// when some rule execute error ,it will continue to execute last
 		e := gw.gengine.Execute(gw.rulebuilder, true)
 		returnResultMap, _ = gw.gengine.GetRulesResultMap()
 		return e, returnResultMap
 	}
 
-	if gp.execModel == ConcurrentModel { //concurrent
+	if em == ConcurrentModel { //concurrent
 		e := gw.gengine.ExecuteConcurrent(gw.rulebuilder)
 		returnResultMap, _ = gw.gengine.GetRulesResultMap()
 		return e, returnResultMap
 	}
 
-	if gp.execModel == MixModel { //mix
+	if em == MixModel { //mix
 		e := gw.gengine.ExecuteMixModel(gw.rulebuilder)
 		returnResultMap, _ = gw.gengine.GetRulesResultMap()
 		return e, returnResultMap
 	}
 
-	if gp.execModel == InverseMixModel { // inverse mix model
+	if em == InverseMixModel { // inverse mix model
 		e := gw.gengine.ExecuteInverseMixModel(gw.rulebuilder)
 		returnResultMap, _ = gw.gengine.GetRulesResultMap()
 		return e, returnResultMap
@@ -677,7 +703,7 @@ func (gp *GenginePool) ExecuteSelectedWithSpecifiedEM(data map[string]interface{
 
 	returnResultMap := make(map[string]interface{})
 	//rules has bean cleared
-	if gp.clear {
+	if gp.isCleared() {
 		//no data to execute rule
 		return nil, returnResultMap
 	}
@@ -692,25 +718,26 @@ func (gp *GenginePool) ExecuteSelectedWithSpecifiedEM(data map[string]interface{
 		gp.putGengineLocked(gw)
 	}()
 
-	if gp.execModel == SortModel {
+	em := gp.GetExecModel()
+	if em == SortModel {
 		e = gw.gengine.ExecuteSelectedRules(gw.rulebuilder, names)
 		returnResultMap, _ = gw.gengine.GetRulesResultMap()
 		return e, returnResultMap
 	}
 
-	if gp.execModel == ConcurrentModel {
+	if em == ConcurrentModel {
 		e = gw.gengine.ExecuteSelectedRulesConcurrent(gw.rulebuilder, names)
 		returnResultMap, _ = gw.gengine.GetRulesResultMap()
 		return e, returnResultMap
 	}
 
-	if gp.execModel == MixModel {
+	if em == MixModel {
 		e = gw.gengine.ExecuteSelectedRulesMixModel(gw.rulebuilder, names)
 		returnResultMap, _ = gw.gengine.GetRulesResultMap()
 		return e, returnResultMap
 	}
 
-	if gp.execModel == InverseMixModel {
+	if em == InverseMixModel {
 		e = gw.gengine.ExecuteSelectedRulesInverseMixModel(gw.rulebuilder, names)
 		returnResultMap, _ = gw.gengine.GetRulesResultMap()
 		return e, returnResultMap
@@ -723,7 +750,7 @@ func (gp *GenginePool) ExecuteSelectedWithSpecifiedEM(data map[string]interface{
 func (gp *GenginePool) Execute(data map[string]interface{}, b bool) (error, map[string]interface{}) {
 	returnResultMap := make(map[string]interface{})
 	//rules has bean cleared
-	if gp.clear {
+	if gp.isCleared() {
 		//no data to execute rule
 		return nil, returnResultMap
 	}
@@ -748,7 +775,7 @@ func (gp *GenginePool) ExecuteWithStopTagDirect(data map[string]interface{}, b b
 
 	returnResultMap := make(map[string]interface{})
 	//rules has bean cleared
-	if gp.clear {
+	if gp.isCleared() {
 		//no data to execute rule
 		return nil, returnResultMap
 	}
@@ -772,7 +799,7 @@ func (gp *GenginePool) ExecuteWithStopTagDirect(data map[string]interface{}, b b
 func (gp *GenginePool) ExecuteConcurrent(data map[string]interface{}) (error, map[string]interface{}) {
 	returnResultMap := make(map[string]interface{})
 	//rules has bean cleared
-	if gp.clear {
+	if gp.isCleared() {
 		//no data to execute rule
 		return nil, returnResultMap
 	}
@@ -796,7 +823,7 @@ func (gp *GenginePool) ExecuteConcurrent(data map[string]interface{}) (error, ma
 func (gp *GenginePool) ExecuteMixModel(data map[string]interface{}) (error, map[string]interface{}) {
 	returnResultMap := make(map[string]interface{})
 	//rules has bean cleared
-	if gp.clear {
+	if gp.isCleared() {
 		//no data to execute rule
 		return nil, returnResultMap
 	}
@@ -820,7 +847,7 @@ func (gp *GenginePool) ExecuteMixModel(data map[string]interface{}) (error, map[
 func (gp *GenginePool) ExecuteMixModelWithStopTagDirect(data map[string]interface{}, sTag *Stag) (error, map[string]interface{}) {
 	returnResultMap := make(map[string]interface{})
 	//rules has bean cleared
-	if gp.clear {
+	if gp.isCleared() {
 		//no data to execute rule
 		return nil, returnResultMap
 	}
@@ -845,7 +872,7 @@ func (gp *GenginePool) ExecuteMixModelWithStopTagDirect(data map[string]interfac
 func (gp *GenginePool) ExecuteSelectedRules(data map[string]interface{}, names []string) (error, map[string]interface{}) {
 	returnResultMap := make(map[string]interface{})
 	//rules has bean cleared
-	if gp.clear {
+	if gp.isCleared() {
 		//no data to execute rule
 		return nil, returnResultMap
 	}
@@ -869,7 +896,7 @@ func (gp *GenginePool) ExecuteSelectedRules(data map[string]interface{}, names [
 func (gp *GenginePool) ExecuteSelectedRulesWithControl(data map[string]interface{}, b bool, names []string) (error, map[string]interface{}) {
 	returnResultMap := make(map[string]interface{})
 	//rules has bean cleared
-	if gp.clear {
+	if gp.isCleared() {
 		//no data to execute rule
 		return nil, returnResultMap
 	}
@@ -893,7 +920,7 @@ func (gp *GenginePool) ExecuteSelectedRulesWithControl(data map[string]interface
 func (gp *GenginePool) ExecuteSelectedRulesWithControlAsGivenSortedName(data map[string]interface{}, b bool, sortedNames []string) (error, map[string]interface{}) {
 	returnResultMap := make(map[string]interface{})
 	//rules has bean cleared
-	if gp.clear {
+	if gp.isCleared() {
 		//no data to execute rule
 		return nil, returnResultMap
 	}
@@ -917,7 +944,7 @@ func (gp *GenginePool) ExecuteSelectedRulesWithControlAsGivenSortedName(data map
 func (gp *GenginePool) ExecuteSelectedRulesWithControlAndStopTag(data map[string]interface{}, b bool, sTag *Stag, names []string) (error, map[string]interface{}) {
 	returnResultMap := make(map[string]interface{})
 	//rules has bean cleared
-	if gp.clear {
+	if gp.isCleared() {
 		//no data to execute rule
 		return nil, returnResultMap
 	}
@@ -941,7 +968,7 @@ func (gp *GenginePool) ExecuteSelectedRulesWithControlAndStopTag(data map[string
 func (gp *GenginePool) ExecuteSelectedRulesWithControlAndStopTagAsGivenSortedName(data map[string]interface{}, b bool, sTag *Stag, sortedNames []string) (error, map[string]interface{}) {
 	returnResultMap := make(map[string]interface{})
 	//rules has bean cleared
-	if gp.clear {
+	if gp.isCleared() {
 		//no data to execute rule
 		return nil, returnResultMap
 	}
@@ -966,7 +993,7 @@ func (gp *GenginePool) ExecuteSelectedRulesConcurrent(data map[string]interface{
 
 	returnResultMap := make(map[string]interface{})
 	//rules has bean cleared
-	if gp.clear {
+	if gp.isCleared() {
 		//no data to execute rule
 		return nil, returnResultMap
 	}
@@ -991,7 +1018,7 @@ func (gp *GenginePool) ExecuteSelectedRulesMixModel(data map[string]interface{},
 
 	returnResultMap := make(map[string]interface{})
 	//rules has bean cleared
-	if gp.clear {
+	if gp.isCleared() {
 		//no data to execute rule
 		return nil, returnResultMap
 	}
@@ -1016,7 +1043,7 @@ func (gp *GenginePool) ExecuteSelectedRulesMixModel(data map[string]interface{},
 func (gp *GenginePool) ExecuteInverseMixModel(data map[string]interface{}) (error, map[string]interface{}) {
 	returnResultMap := make(map[string]interface{})
 	//rules has bean cleared
-	if gp.clear {
+	if gp.isCleared() {
 		//no data to execute rule
 		return nil, returnResultMap
 	}
@@ -1042,7 +1069,7 @@ func (gp *GenginePool) ExecuteSelectedRulesInverseMixModel(data map[string]inter
 
 	returnResultMap := make(map[string]interface{})
 	//rules has bean cleared
-	if gp.clear {
+	if gp.isCleared() {
 		//no data to execute rule
 		return nil, returnResultMap
 	}
@@ -1067,7 +1094,7 @@ func (gp *GenginePool) ExecuteNSortMConcurrent(nSort, mConcurrent int, b bool, d
 
 	returnResultMap := make(map[string]interface{})
 	//rules has bean cleared
-	if gp.clear {
+	if gp.isCleared() {
 		//no data to execute rule
 		return nil, returnResultMap
 	}
@@ -1091,7 +1118,7 @@ func (gp *GenginePool) ExecuteNSortMConcurrent(nSort, mConcurrent int, b bool, d
 func (gp *GenginePool) ExecuteNConcurrentMSort(nSort, mConcurrent int, b bool, data map[string]interface{}) (error, map[string]interface{}) {
 	returnResultMap := make(map[string]interface{})
 	//rules has bean cleared
-	if gp.clear {
+	if gp.isCleared() {
 		//no data to execute rule
 		return nil, returnResultMap
 	}
@@ -1115,7 +1142,7 @@ func (gp *GenginePool) ExecuteNConcurrentMSort(nSort, mConcurrent int, b bool, d
 func (gp *GenginePool) ExecuteNConcurrentMConcurrent(nSort, mConcurrent int, b bool, data map[string]interface{}) (error, map[string]interface{}) {
 	returnResultMap := make(map[string]interface{})
 	//rules has bean cleared
-	if gp.clear {
+	if gp.isCleared() {
 		//no data to execute rule
 		return nil, returnResultMap
 	}
@@ -1140,7 +1167,7 @@ func (gp *GenginePool) ExecuteNConcurrentMConcurrent(nSort, mConcurrent int, b b
 func (gp *GenginePool) ExecuteSelectedNSortMConcurrent(nSort, mConcurrent int, b bool, names []string, data map[string]interface{}) (error, map[string]interface{}) {
 	returnResultMap := make(map[string]interface{})
 	//rules has bean cleared
-	if gp.clear {
+	if gp.isCleared() {
 		//no data to execute rule
 		return nil, returnResultMap
 	}
@@ -1165,7 +1192,7 @@ func (gp *GenginePool) ExecuteSelectedNConcurrentMSort(nSort, mConcurrent int, b
 
 	returnResultMap := make(map[string]interface{})
 	//rules has bean cleared
-	if gp.clear {
+	if gp.isCleared() {
 		//no data to execute rule
 		return nil, returnResultMap
 	}
@@ -1190,7 +1217,7 @@ func (gp *GenginePool) ExecuteSelectedNConcurrentMConcurrent(nSort, mConcurrent 
 
 	returnResultMap := make(map[string]interface{})
 	//rules has bean cleared
-	if gp.clear {
+	if gp.isCleared() {
 		//no data to execute rule
 		return nil, returnResultMap
 	}
@@ -1215,7 +1242,7 @@ func (gp *GenginePool) ExecuteDAGModel(dag [][]string, data map[string]interface
 
 	returnResultMap := make(map[string]interface{})
 	//rules has bean cleared
-	if gp.clear {
+	if gp.isCleared() {
 		//no data to execute rule
 		return nil, returnResultMap
 	}
